@@ -212,19 +212,37 @@ var ruleC1 = &Rule{
 			}
 			info := fi.Pkg.TypesInfo
 			// service constructor: contains a composite literal with keys InsertRequest, AcquireColumns, ProcessRequest
+			// service constructor: contains a struct literal that gives the INSERT text (a string that reads as `INSERT INTO t (cols)`),
+			// the column acquirer (func() []IColPoolRes) and the request processor (func(any, []IColPoolRes) (int, []IColPoolRes, error)) —
+			// the service itself, or a description handed to a generic builder. A literal that only forwards them is not one.
 			var lit *ast.CompositeLit
+			var insertExpr ast.Expr
 			ast.Inspect(fi.Decl.Body, func(n ast.Node) bool {
 				if cl, ok := n.(*ast.CompositeLit); ok {
-					keys := map[string]bool{}
+					hasAcq, hasProc := false, false
+					var ins ast.Expr
 					for _, el := range cl.Elts {
-						if kv, ok := el.(*ast.KeyValueExpr); ok {
-							if id, ok := kv.Key.(*ast.Ident); ok {
-								keys[id.Name] = true
+						kv, ok := el.(*ast.KeyValueExpr)
+						if !ok {
+							continue
+						}
+						tv, ok := info.Types[kv.Value]
+						if !ok {
+							continue
+						}
+						switch {
+						case isAcquireSig(tv.Type):
+							hasAcq = true
+						case isProcessSig(tv.Type):
+							hasProc = true
+						case types.Identical(tv.Type.Underlying(), types.Typ[types.String]):
+							if reInsertCols.MatchString(c.queryText(fi, kv.Value)) {
+								ins = kv.Value
 							}
 						}
 					}
-					if keys["InsertRequest"] && keys["AcquireColumns"] && keys["ProcessRequest"] {
-						lit = cl
+					if hasAcq && hasProc && ins != nil {
+						lit, insertExpr = cl, ins
 					}
 				}
 				return true
@@ -244,17 +262,7 @@ var ruleC1 = &Rule{
 			}
 			var insertText, table string
 			var acqLit, procLit *ast.FuncLit
-			for _, el := range lit.Elts {
-				kv := el.(*ast.KeyValueExpr)
-				switch kv.Key.(*ast.Ident).Name {
-				case "InsertRequest":
-					insertText = c.queryText(fi, kv.Value)
-				case "AcquireColumns":
-					acqLit, _ = kv.Value.(*ast.FuncLit)
-				case "ProcessRequest":
-					procLit, _ = kv.Value.(*ast.FuncLit)
-				}
-			}
+			insertText = c.queryText(fi, insertExpr)
 			// table literal: the first string assigned to a local that feeds the Sprintf …
 			ast.Inspect(fi.Decl.Body, func(n ast.Node) bool {
 				if as, ok := n.(*ast.AssignStmt); ok && as.Tok == token.DEFINE && len(as.Rhs) == 1 && table == "" {
@@ -314,10 +322,11 @@ var ruleC1 = &Rule{
 						if fv == nil {
 							continue
 						}
-						if strings.HasSuffix(k, ".AcquireColumns") {
+						_ = k
+						if ft := fieldTypeOf(fa); ft != nil && isAcquireSig(ft) {
 							acqFn = fv
 						}
-						if strings.HasSuffix(k, ".ProcessRequest") {
+						if ft := fieldTypeOf(fa); ft != nil && isProcessSig(ft) {
 							procFn = fv
 						}
 					}
@@ -1332,11 +1341,14 @@ func (c *Ctx) insertServices() []insertService {
 				if !ok {
 					continue
 				}
-				k := fieldKey(fa.X.Type(), fa.Field)
-				if strings.HasSuffix(k, ".AcquireColumns") {
+				ft := fieldTypeOf(fa)
+				if ft == nil {
+					continue
+				}
+				if isAcquireSig(ft) && funcVal(st.Val) != nil {
 					svc.acqFn = funcVal(st.Val)
 				}
-				if strings.HasSuffix(k, ".ProcessRequest") {
+				if isProcessSig(ft) && funcVal(st.Val) != nil {
 					svc.procFn = funcVal(st.Val)
 				}
 			}
@@ -1408,4 +1420,39 @@ func (c *Ctx) initLiteralOf(p *packagesPackage, obj types.Object) *ast.Composite
 		}
 	}
 	return nil
+}
+
+func fieldTypeOf(fa *ssa.FieldAddr) types.Type {
+	t := fa.X.Type()
+	if p, ok := t.Underlying().(*types.Pointer); ok {
+		t = p.Elem()
+	}
+	if st, ok := t.Underlying().(*types.Struct); ok && fa.Field < st.NumFields() {
+		return st.Field(fa.Field).Type()
+	}
+	return nil
+}
+
+func isColPoolResSlice(t types.Type) bool {
+	sl, ok := t.Underlying().(*types.Slice)
+	if !ok {
+		return false
+	}
+	nt := namedOf(sl.Elem())
+	return nt != nil && nt.Obj().Name() == "IColPoolRes"
+}
+
+// isAcquireSig: func() []IColPoolRes — the column acquirer of an insert service.
+func isAcquireSig(t types.Type) bool {
+	sig, ok := t.Underlying().(*types.Signature)
+	return ok && sig.Params().Len() == 0 && sig.Results().Len() == 1 && isColPoolResSlice(sig.Results().At(0).Type())
+}
+
+// isProcessSig: func(any, []IColPoolRes) (int, []IColPoolRes, error) — the request processor of an insert service.
+func isProcessSig(t types.Type) bool {
+	sig, ok := t.Underlying().(*types.Signature)
+	if !ok || sig.Params().Len() != 2 || sig.Results().Len() != 3 {
+		return false
+	}
+	return isColPoolResSlice(sig.Params().At(1).Type()) && isColPoolResSlice(sig.Results().At(1).Type())
 }
